@@ -43,6 +43,11 @@ def sandboxPtrCast (k : Nat) : PtrSrc → Nat
   | .tainted a => a
   | .tvol cell rep => ptrLoad k cell rep
 
+/-- `sandbox_static_cast` between pointers to classes related by inheritance: the plain `static_cast` on the underlying
+pointer -- null stays null, otherwise the address moves by the offset of the base subobject (`delta`, negative for a
+downcast); `sandbox_reinterpret_cast` is `delta = 0` -/
+def staticCastClassPtr (delta : Int) (a : Nat) : Nat := if a = 0 then 0 else (a + delta).toNat
+
 /-! ## Casts that involve a floating-point type
 
 `static_cast` between an integer and a binary floating-point type is a *value* conversion: an integer becomes
